@@ -451,3 +451,83 @@ def populate_contract(target, Maker, FnContract, Raises):
         modifies=("self",),
         note="VERIFIED (round 7; before: provenance data flow + BOUNDED native scope): the four path fields hold str values after the "
              "call (hint `str | None`), nothing is stored for path None; relative to the assumed pathlib model")
+
+
+# ---------------------------------------------------------------- __post_init__ --
+STRIP = z3.Function("STRIP", S, S)          # str.strip() without arguments (ASSUMED: idempotent; validated natively by scope post-init-idempotent)
+
+
+def install_strip(reg):
+    def m_strip(ex, st, args, kwargs, node):
+        if len(args) == 1 and not kwargs and isinstance(args[0], VStr):
+            return [(st, VStr(STRIP(args[0].t)))]
+        return [(st, VStr(z3.String(fresh_name("strip"))))]
+    reg.ext_models.setdefault("str.strip", m_strip)
+
+
+def class_fields(mod, cname, seen=()):
+    """[(field name, annotation text)] of a dataclass incl. the bases defined in the same module (bases first)."""
+    cn = mod.classes.get(cname)
+    if cn is None or cname in seen:
+        return []
+    out = []
+    for b in cn.bases:
+        if isinstance(b, ast.Name):
+            out += class_fields(mod, b.id, seen + (cname,))
+    for b in cn.body:
+        if isinstance(b, ast.AnnAssign) and isinstance(b.target, ast.Name) and "ClassVar" not in ast.unparse(b.annotation):
+            out = [x for x in out if x[0] != b.target.id] + [(b.target.id, ast.unparse(b.annotation))]
+    return out
+
+
+def post_init_contracts(mod, rel, Maker, FnContract, Raises):
+    """__post_init__ as a state transformer T over the declared fields: running it a second time changes nothing, T(T(s)) == T(s)
+    field by field -- what from_json needs (the constructor runs __post_init__ again on already normalised values).  The second run
+    is the first one's result terms with every old field replaced by its new value; str.strip() is an uninterpreted function with
+    the idempotence instances at the fields as hypotheses.  `dict.__init__(self, ...)` mirrors (ImageMetadata) stay syntactic."""
+    from pyvc.values import VUnk
+    out = []
+    for cname, cn in mod.classes.items():
+        if "." in cname:
+            continue
+        fn = next((b for b in cn.body if isinstance(b, ast.FunctionDef) and b.name == "__post_init__"), None)
+        if fn is None or "dict.__init__" in ast.unparse(fn) or len(fn.args.args) != 1:
+            continue
+        flds_ = class_fields(mod, cname)
+        strs = [f_ for f_, ann in flds_ if ann in ("str", "builtins.str")]
+
+        def p_self(cname=cname, flds_=flds_, strs=strs):
+            def mk(ex, st, name):
+                d = {f_: (VStr(z3.String(f"{name}.{f_}")) if f_ in strs else VUnk(f"{cname}.{f_}")) for f_, _a in flds_}
+                return [(None, VRef(st.alloc(HeapObj("obj", d, cname, fresh=False), ex.refs)))]
+            return Maker(mk, desc=f"{cname} as its constructor hands it to __post_init__ (str fields symbolic)")
+
+        def hyps(c, strs=strs):
+            d0 = c.entry.obj(c.args["self"].ref).data
+            return z3.And([STRIP(STRIP(d0[f_].t)) == STRIP(d0[f_].t) for f_ in strs] + [T])
+
+        def idempotent(c, strs=strs, cname=cname):
+            d0, d1 = c.entry.obj(c.args["self"].ref).data, c.st.obj(c.args["self"].ref).data
+            if set(d1) != set(d0):
+                c.note = f"attributes that are not declared fields: {sorted(set(d1) - set(d0))}"
+                return F
+            sub, goals = [], []
+            for f_ in d0:
+                if d1[f_] is d0[f_]:
+                    continue
+                if not (f_ in strs and isinstance(d1[f_], VStr)):
+                    c.note = f"{cname}.{f_} is rewritten to {d1[f_]!r}: not a str normalisation the rule follows"
+                    return F
+                sub.append((d0[f_].t, d1[f_].t))
+            for old, new in sub:
+                goals.append(z3.substitute(new, *sub) == new)
+                goals.append(STRIP(STRIP(new)) == STRIP(new))        # (instances at the new values, for compositions)
+            return z3.And([g for i, g in enumerate(goals) if i % 2 == 0] + [T])
+
+        out.append(FnContract(
+            target=f"{rel}::{cname}.__post_init__", params=[("self", p_self())], hyps=hyps,
+            ensures=[("second-run-changes-nothing", idempotent)], modifies=("self",),
+            raises=[Raises("AttributeError", label="a str field holding None (absent value): the constructor fails, outside C05")],
+            note="VERIFIED (round 7; before: a syntactic pattern + BOUNDED native scope): T(T(s)) == T(s) for the field-wise transformer of the body, "
+                 "relative to strip(strip(x)) == strip(x)"))
+    return out
